@@ -18,13 +18,16 @@ void message_error(const char *f, ...) { (void)f; ++n_err; }
 void message_warning(const char *f, ...) { (void)f; ++n_warn; }
 void message_fatal(const char *f, ...) { (void)f; ASSUME(0); }
 void message_bug(void) { CHECK(0, "message_bug() reached"); ASSUME(0); }
+void tuklib_exit(int status, int err_status, int show_error) { (void)status; (void)err_status; (void)show_error; ASSUME(0); }   /* the process ends here */
 void message_mem_needed(enum message_verbosity v, uint64_t m) { (void)v; (void)m; }
 const char *message_strm(lzma_ret r) { (void)r; return "x"; }
 void message_progress_update(void) {}
 const char *tuklib_mask_nonprint(const char *s) { return s; }
 uint32_t hardware_threads_get(void) { return 1 + (nd_u32() & 3); }
-bool hardware_threads_is_mt(void) { return nd_bool(); }
-uint64_t hardware_memlimit_get(enum operation_mode m) { (void)m; return nd_u64(); }
+static bool g_mt_fixed;
+bool hardware_threads_is_mt(void) { return g_mt_fixed ? false : nd_bool(); }
+static uint64_t g_limit_set; static bool g_limit_fixed;
+uint64_t hardware_memlimit_get(enum operation_mode m) { (void)m; return g_limit_fixed ? g_limit_set : nd_u64(); }
 uint64_t hardware_memlimit_mtdec_get(void) { return nd_u64(); }
 uint64_t lzma_memusage(const lzma_stream *s) { (void)s; return 1; }
 
@@ -140,4 +143,72 @@ void harness_coder_normal(void)
 	if (g_final_seen && !g_write_failed && g_code_calls <= 4)
 		CHECK(g_written == g_produced, "all output produced before the end of stream or an error is written out");
 	if (g_final_seen && !ok && !g_write_failed) WITNESS("error path with output flushed");
+}
+
+/* ------------------------------------------------------------------------------------ */
+/* C09 O-e: coder_set_compression_settings(): with a user memory limit xz either stays
+ * within it for EVERY filter chain in use (shrinking LZMA dictionaries in 1 MiB steps when
+ * allowed) or fails. */
+bool opt_auto_adjust; uint64_t opt_flush_timeout;
+uint32_t block_list_chain_mask; uint64_t block_list_largest;
+static uint64_t g_limit; static bool g_mt;
+void message(enum message_verbosity v, const char *f, ...) { (void)v; (void)f; }
+void message_filters_show(enum message_verbosity v, const lzma_filter *f) { (void)v; (void)f; }
+enum message_verbosity message_verbosity_get(void) { return V_WARNING; }
+const char *uint64_to_str(uint64_t v, uint32_t slot) { (void)v; (void)slot; return "0"; }
+uint64_t round_up_to_mib(uint64_t n) { return (n >> 20) + ((n & 0xFFFFF) != 0); }
+void hardware_threads_set(uint32_t n) { (void)n; g_mt = false; }
+bool hardware_memlimit_mtenc_is_default(void) { return false; }
+uint64_t hardware_memlimit_mtenc_get(void) { return g_limit; }
+lzma_bool lzma_check_is_supported(lzma_check c) { (void)c; return true; }
+lzma_bool lzma_lzma_preset(lzma_options_lzma *o, uint32_t p) { (void)p; o->dict_size = 8u << 20; return false; }
+uint64_t lzma_mt_block_size(const lzma_filter *f) { (void)f; return 1u << 20; }
+/* memory model of the library: grows with the dictionary size of the chain's LZMA filter */
+static uint64_t chain_mem(const lzma_filter *f)
+{
+	for (unsigned j = 0; j <= LZMA_FILTERS_MAX; ++j) {
+		if (f[j].id == LZMA_VLI_UNKNOWN) return 100000;
+		if (f[j].id == LZMA_FILTER_LZMA2 || f[j].id == LZMA_FILTER_LZMA1)
+			return 100000 + (uint64_t)((const lzma_options_lzma *)f[j].options)->dict_size * 11;
+	}
+	return 100000;
+}
+uint64_t lzma_raw_encoder_memusage(const lzma_filter *f) { return chain_mem(f); }
+uint64_t lzma_raw_decoder_memusage(const lzma_filter *f) { return chain_mem(f) / 8; }
+uint64_t lzma_stream_encoder_mt_memusage(const lzma_mt *o) { return chain_mem(o->filters) * o->threads + 1000; }
+
+void harness_memlimit_settings(void)
+{
+	static lzma_options_lzma opts[3];
+	static block_list_entry bl[2];
+	opt_mode = MODE_COMPRESS; opt_format = FORMAT_XZ;
+	opt_auto_adjust = nd_bool(); opt_flush_timeout = 0; opt_block_size = 0;
+	g_mt = false; g_mt_fixed = true;     /* single-threaded: the dictionary-adjustment branch */
+	uint32_t mask = 1 + (nd_u32() & 6);          /* chain 0 plus any of --filters1, --filters2 */
+	chains_used_mask = mask; block_list_chain_mask = mask;
+	bl[0].size = 1 << 20; bl[0].chain_num = 0; bl[1].size = 0; bl[1].chain_num = 0;
+	opt_block_list = mask != 1 ? bl : NULL;
+	uint32_t orig[3];
+	for (unsigned i = 0; i < 3; ++i) {
+		orig[i] = ((1 + nd_u32() % 6) << 20) + (nd_u32() & 0xFFFFF);      /* 1 MiB .. 7 MiB */
+		opts[i].dict_size = orig[i];
+		chains[i][0].id = LZMA_FILTER_LZMA2; chains[i][0].options = &opts[i];
+		chains[i][1].id = LZMA_VLI_UNKNOWN; chains[i][1].options = NULL;
+	}
+	filters_count = 1; check_default = true;
+	g_limit = nd_u64() >> 20;
+	g_limit_fixed = true; g_limit_set = g_limit;
+	coder_set_compression_settings();
+	/* returned normally (message_fatal ends the path) */
+	for (unsigned i = 0; i < 3; ++i) {
+		if (!(mask & (1u << i))) continue;
+		CHECK(chain_mem(chains[i]) <= g_limit, "on return every filter chain in use fits the memory limit");
+		CHECK(opts[i].dict_size <= orig[i], "dictionaries are only ever made smaller");
+		if (opts[i].dict_size != orig[i]) {
+			CHECK(opt_auto_adjust, "and only when automatic adjustment is allowed");
+			CHECK(opts[i].dict_size >= (1u << 20) && (opts[i].dict_size & 0xFFFFF) == 0, "in whole MiB steps, never below 1 MiB");
+			if (i > 0) WITNESS("a later filter chain was adjusted");
+		}
+	}
+	if (mask == 7) WITNESS("three chains in use");
 }
